@@ -194,6 +194,10 @@ class Context:
     # ---- literals --------------------------------------------------------------------------------------
     def seq_literal(self, t):
         """If t is a unit/append literal of integer constants return the python list, else None."""
+        from .interp import _LIT_BACK
+        hit = _LIT_BACK.get(t.get_id())
+        if hit is not None and z3.eq(hit[0], t):
+            return list(hit[1])
         out = []
 
         def walk(x):
